@@ -387,6 +387,7 @@ class Monitor:
         names = m.ports + [p for _, _, p in m.notes]
         diffs = [f"{n}: design={_hx(o)} model={_hx(e)}" for n, o, e in
                  zip(names, obs_regs + obs_notes, exp_regs + exp_notes) if o != e]
+        diff_ports = "+".join(n for n, o, e in zip(names, obs_regs + obs_notes, exp_regs + exp_notes) if o != e)
         if seq:
             w = seq[0][1]
             ri = m.reg_of(w[0])
@@ -394,10 +395,10 @@ class Monitor:
             rcls = m.regs[ri]["cls"] if ri is not None else "-"
             ctx = (f"pending write addr=0x{w[0]:x} ({rname}) data={_hx(w[1])} strb={w[2]:04b}"
                    + (" [answered at this edge]" if seq[0][0] == -1 else ""))
-            detail = f"write/addr=0x{w[0]:x}:{rcls}/strb={w[2]:04b}"
+            detail = f"write/addr=0x{w[0]:x}:{rcls}/strb={w[2]:04b}/diff={diff_ports}"
         else:
             ctx = "no write pending"
-            detail = "idle"
+            detail = f"idle/diff={diff_ports}"
         raise Violation("regs", detail,
                         f"register outputs after the edge have no admissible explanation ({ctx}; "
                         f"reads pending: {[hex(r[0]) for r in rd]}); closest: " + "; ".join(diffs))
